@@ -69,6 +69,7 @@ def PhaseOk (pop : Nat) (x : QJob R) : Prop :=
   | .running ds recv => ds.length = pop ∧ recv = some ds
   | .returning ds recv => ds.length = pop ∧ recv = some ds
   | .finished recv md => md.length = pop ∧ recv = some md
+  | .cancelled => True
 
 structure QInv (q0 : List R) (pop workers : Nat) (s : QState R) : Prop where
   cons : (s.queue ++ heldAll s).Perm q0
@@ -111,6 +112,23 @@ inductive StepSpec : QState R → QStep → QState R → Prop
       s.jobs[j]? = some x → x.phase = .returning ds recv →
       StepSpec s (.release j)
         (setJob { s with queue := s.queue ++ ds } j { x with phase := .finished recv ds })
+  | cancel (s : QState R) (j : Nat) (x : QJob R) : s.jobs[j]? = some x → isEnded x.phase = false →
+      StepSpec s (.cancel j)
+        (setJob { s with queue := s.queue ++ held x.phase } j { x with phase := .cancelled })
+
+theorem not_ended_cases {ph : Phase R} (h : isEnded ph = false) :
+    ph = .created ∨ (∃ ds, ph = .holding ds) ∨ (∃ ds recv, ph = .running ds recv) ∨
+      (∃ ds recv, ph = .returning ds recv) := by
+  cases ph with
+  | created => exact Or.inl rfl
+  | holding ds => exact Or.inr (Or.inl ⟨ds, rfl⟩)
+  | running ds recv => exact Or.inr (Or.inr (Or.inl ⟨ds, recv, rfl⟩))
+  | returning ds recv => exact Or.inr (Or.inr (Or.inr ⟨ds, recv, rfl⟩))
+  | finished recv md => simp [isEnded] at h
+  | cancelled => simp [isEnded] at h
+
+theorem rank_pos_of_not_ended {ph : Phase R} (h : isEnded ph = false) : 0 < rank ph := by
+  rcases not_ended_cases h with rfl | ⟨_, rfl⟩ | ⟨_, _, rfl⟩ | ⟨_, _, rfl⟩ <;> simp [rank]
 
 theorem step_spec {s s' : QState R} {t : QStep} (h : step s t = some s') : StepSpec s t s' := by
   cases t with
@@ -135,6 +153,7 @@ theorem step_spec {s s' : QState R} {t : QStep} (h : step s t = some s') : StepS
       | running ds recv => simp [hp] at h
       | returning ds recv => simp [hp] at h
       | finished recv md => simp [hp] at h
+      | cancelled => simp [hp] at h
   | start j =>
     simp only [step] at h
     cases hx : s.jobs[j]? with
@@ -153,6 +172,7 @@ theorem step_spec {s s' : QState R} {t : QStep} (h : step s t = some s') : StepS
       | running ds recv => simp [hp] at h
       | returning ds recv => simp [hp] at h
       | finished recv md => simp [hp] at h
+      | cancelled => simp [hp] at h
   | endRun j =>
     simp only [step] at h
     cases hx : s.jobs[j]? with
@@ -167,6 +187,7 @@ theorem step_spec {s s' : QState R} {t : QStep} (h : step s t = some s') : StepS
       | holding ds => simp [hp] at h
       | returning ds recv => simp [hp] at h
       | finished recv md => simp [hp] at h
+      | cancelled => simp [hp] at h
   | release j =>
     simp only [step] at h
     cases hx : s.jobs[j]? with
@@ -181,6 +202,19 @@ theorem step_spec {s s' : QState R} {t : QStep} (h : step s t = some s') : StepS
       | holding ds => simp [hp] at h
       | running ds recv => simp [hp] at h
       | finished recv md => simp [hp] at h
+      | cancelled => simp [hp] at h
+  | cancel j =>
+    simp only [step] at h
+    cases hx : s.jobs[j]? with
+    | none => simp [hx] at h
+    | some x =>
+      simp only [hx] at h
+      split at h
+      · simp at h
+      · rename_i hne
+        simp only [Option.some.injEq] at h
+        subst h
+        exact .cancel s j x hx (by simpa using hne)
 
 theorem QInv.step {q0 : List R} {pop workers : Nat} {s s' : QState R} {t : QStep}
     (hi : QInv q0 pop workers s) (h : DH.Queued.step s t = some s') : QInv q0 pop workers s' := by
@@ -256,6 +290,20 @@ theorem QInv.step {q0 : List R} {pop workers : Nat} {s s' : QState R} {t : QStep
     · apply ph_set hi.ph
       simp only [PhaseOk]; exact hxo
 
+  | cancel j x hx hne =>
+    refine ⟨?_, ?_, hi.hpop, hi.hw⟩
+    · have hperm := heldAll_setJob { s with queue := s.queue ++ held x.phase } j x { x with phase := .cancelled } hx
+      simp only [held, List.append_nil] at hperm
+      show (s.queue ++ held x.phase ++ _).Perm q0
+      have : (s.queue ++ held x.phase ++
+          heldAll (setJob { s with queue := s.queue ++ held x.phase } j { x with phase := .cancelled })).Perm
+          (s.queue ++ heldAll s) := by
+        rw [List.append_assoc]
+        exact List.Perm.append_left _ (List.perm_append_comm.trans hperm)
+      exact this.trans hi.cons
+    · apply ph_set hi.ph
+      simp only [PhaseOk]
+
 theorem reach_inv {q0 : List R} {pop workers : Nat} {s : QState R} (h : Reach q0 pop workers s) :
     QInv q0 pop workers s := by
   induction h with
@@ -270,10 +318,12 @@ theorem measure_setJob (s s0 : QState R) (h0 : s0.jobs = s.jobs) (j : Nat) (x y 
   have := sum_map_set (fun q : QJob R => rank q.phase) s.jobs j x y h
   simpa [measure, setJob, h0] using this
 
-theorem measure_step {s s' : QState R} {t : QStep} (h : step s t = some s') (ht : ∀ n, t ≠ .submit n) :
-    measure s' + 1 = measure s := by
+/-- an ordinary transition (not a submission, not a cancellation) lowers the measure by one -/
+theorem measure_step {s s' : QState R} {t : QStep} (h : step s t = some s') (ht : ∀ n, t ≠ .submit n)
+    (hc : ∀ j, t ≠ .cancel j) : measure s' + 1 = measure s := by
   cases step_spec h with
   | submit n => exact absurd rfl (ht n)
+  | cancel j x hx hne => exact absurd rfl (hc j)
   | take j x hx hp hle =>
     have := measure_setJob s { s with queue := s.queue.drop s.pop } rfl j x
       { x with sem := s.waves, ctx := some (s.queue.take s.pop), phase := .holding (s.queue.take s.pop) } hx
@@ -287,5 +337,25 @@ theorem measure_step {s s' : QState R} {t : QStep} (h : step s t = some s') (ht 
   | release j x ds recv hx hp =>
     have := measure_setJob s { s with queue := s.queue ++ ds } rfl j x { x with phase := .finished recv ds } hx
     simp only [hp, rank] at this; omega
+
+/-- a cancellation lowers it by what the job still had to do (at least one) -/
+theorem measure_cancel {s s' : QState R} {j : Nat} (h : step s (.cancel j) = some s') :
+    measure s' + 1 ≤ measure s := by
+  cases step_spec h with
+  | cancel _ x hx hne =>
+    have := measure_setJob s { s with queue := s.queue ++ held x.phase } rfl j x { x with phase := .cancelled } hx
+    have hp := rank_pos_of_not_ended hne
+    have e : rank ({ x with phase := Phase.cancelled } : QJob R).phase = 0 := rfl
+    rw [e] at this; omega
+
+theorem measure_step_le {s s' : QState R} {t : QStep} (h : step s t = some s') (ht : ∀ n, t ≠ .submit n) :
+    measure s' + 1 ≤ measure s := by
+  cases t with
+  | cancel j => exact measure_cancel h
+  | submit n => exact absurd rfl (ht n)
+  | take j => exact Nat.le_of_eq (measure_step h ht (by simp))
+  | start j => exact Nat.le_of_eq (measure_step h ht (by simp))
+  | endRun j => exact Nat.le_of_eq (measure_step h ht (by simp))
+  | release j => exact Nat.le_of_eq (measure_step h ht (by simp))
 
 end DH.Queued
